@@ -879,6 +879,41 @@ def r9(ctx):
         ctx.ob(fi.qual, "variants-left-of-ref_pos-passed-before-queueing:%s" % u(st_)[:40], ok, fi.loc(st_), "after `%s` the cursor passes every variant left of ref_pos before a variant is queued with offset var_pos - ref_pos" % u(st_) if ok else "after `%s` (ref_pos moves without looking at variants) the next operation queues pending variants with a negative offset var_pos - ref_pos: a read gets an allele for a variant inside a reference skip it does not overlap" % u(st_), cfg.describe_path(path) if path else None)
 
 
+def r10(ctx):
+    """Two small disciplines of the re-alignment path.  (a) Memo tables (`calculated_costs`, `splitted_strings`): an entry is stored
+    under the key whose absence was just tested, and read back under that key -- a score cached under another allele's key makes
+    the next read with the same window see a tie (or the other allele's score).  (b) Reads are grouped per file: the grouping key
+    of `_group_reads` contains source_id, name and sample_id, so alignments of different files are never merged into one read."""
+    fi = ctx.func(RR + ".realign")
+    cfg = ctx.cfg(fi)
+    n = 0
+    for st in util.store_sites(fi.node):
+        if st.kind != "subscript" or not isinstance(st.target.value, ast.Name) or st.target.value.id not in ("calculated_costs", "splitted_strings"):
+            continue
+        cache, key = st.target.value.id, u(st.target.slice)
+        ga = guard_atoms(cfg, cfg.node_of(st.stmt))
+        tested = [t_[: -len(" in %s" % cache)] for t_, p_ in ga if (not p_) and t_.endswith(" in %s" % cache)]
+        n += 1
+        if not tested:
+            ctx.ob(fi.qual, "memo-stored-under-the-tested-key:%s[%s]" % (cache, key[:30]), None, fi.loc(st.stmt), "no `key in %s` test dominates this store" % cache)
+            continue
+        ok = key in tested
+        # the hit branch reads the same key into the same variable
+        if ok and isinstance(st.value, ast.Name):
+            hits = [x for x in walk_function(fi.node) if isinstance(x, ast.Assign) and u(x.targets[0]) == st.value.id and isinstance(x.value, ast.Subscript) and u(x.value.value) == cache]
+            ok = any(u(h_.value.slice) == key for h_ in hits) if hits else ok
+        ctx.ob(fi.qual, "memo-stored-under-the-tested-key:%s[%s]" % (cache, key[:30]), ok, fi.loc(st.stmt), "%s[%s] is filled right after `%s not in %s` and read back under the same key" % (cache, key, key, cache) if ok else "`%s` stores under %s although the key tested (and read on a hit) is %s: later reads with the same window get another entry's value" % (st.text()[:70], key, tested))
+    ctx.require(n >= 2, "memo stores of realign() not found")
+    gr = ctx.func(RR + "._group_reads")
+    keys = [x.slice for x in walk_function(gr.node) if isinstance(x, ast.Subscript) and isinstance(x.slice, ast.Tuple) and isinstance(x.value, ast.Name) and any(isinstance(y, ast.Attribute) and y.attr == "name" for y in ast.walk(x.slice))]
+    if not keys:
+        ctx.ob(gr.qual, "reads-grouped-per-file", None, gr.loc(), "grouping key of _group_reads not found")
+    else:
+        attrs = {y.attr for y in ast.walk(keys[0]) if isinstance(y, ast.Attribute)}
+        ok = {"source_id", "name", "sample_id"} <= attrs
+        ctx.ob(gr.qual, "reads-grouped-per-file", ok, gr.loc(keys[0]), "alignments are grouped by (source_id, name, sample_id)" if ok else "the grouping key %s lacks %s: equally named reads of different input files are merged into one read that carries alleles of variants it does not overlap" % (u(keys[0]), sorted({"source_id", "name", "sample_id"} - attrs)))
+
+
 RULES = [
     ("C06.R1", "CIGAR consumption tables of the three walkers vs. SAM", r1),
     ("C06.R2", "unknown operators are rejected", r2),
@@ -889,7 +924,8 @@ RULES = [
     ("C06.R7", "variant normalisation strips only bases shared by all alleles", r7),
     ("C06.R8", "variant cursor skips only variants strictly left of the read", r8),
     ("C06.R9", "reference-free walker passes variants left of ref_pos before queueing", r9),
+    ("C06.R10", "memo tables keyed consistently; reads grouped per input file", r10),
 ]
 # instance floors: about 60% of the instances confirmed by hand on the reference tree -- a rule that suddenly matches far fewer
 # sites fails the run (exit 2); a clean-up that merges two sites into one does not
-FLOORS = {"C06.R1": 16, "C06.R2": 3, "C06.R3": 5, "C06.R4": 7, "C06.R5": 6, "C06.R6": 2, "C06.R7": 2, "C06.R8": 2, "C06.R9": 2}
+FLOORS = {"C06.R1": 16, "C06.R2": 3, "C06.R3": 5, "C06.R4": 7, "C06.R5": 6, "C06.R6": 2, "C06.R7": 2, "C06.R8": 2, "C06.R9": 2, "C06.R10": 3}
